@@ -1,5 +1,6 @@
 import MitmVerif.Model.C38
 import MitmVerif.Gen.C38
+import MitmVerif.Model.C38_Conv
 import Driver.Proto
 open MitmVerif Driver MitmVerif.C38 MitmVerif.Gen.C38
 
@@ -23,6 +24,18 @@ def c38Step (line : String) : String :=
       | some n => toString n
       | none => "none"
     | none => "bad-op"
+  | ["conv", v, h] =>
+    -- one converter step on a tnetstring-encoded state: decode (C36 model), convert, encode
+    match v.toNat?, hexOr h with
+    | some v, some b =>
+      match MitmVerif.C36.popTop 64 b, MitmVerif.C38Conv.conv v with
+      | .ok (.dict kvs, []), some f =>
+        match f kvs with
+        | some d' => "ok " ++ showBytes (MitmVerif.C36.dumps (.dict d'))
+        | none => "none"
+      | .ok _, none => "unmodelled"
+      | _, _ => "bad-state"
+    | _, _ => "bad-op"
   | ["golden"] => "golden"
   | _ => "bad-op"
 
